@@ -66,10 +66,27 @@ type fnSpec struct {
 	// `shl` / `shr` (same value as `<<<` / `>>>`, but executable for the astronomically large counts a converted
 	// negative number yields: Lean's `<<<` on BitVec would first build 2^n)
 	round2 bool
+	// third round (mut.go): parameters whose pointee the function assigns (`next *Position`)
+	// mut: for every such parameter the field paths the function may assign (space separated); they make up the state the
+	// function returns (a tuple sorted by name).  A path listed in `mut` and not in `views` is not an input: it starts
+	// uninitialised and reading it before it is assigned (or copied, see `copies`) fails loudly.
+	mut map[string]string
+	// late: field paths of such a parameter that are only read, and only after a copy statement has initialised them
+	late map[string]string
+	// copies: names of functions of the package that are storage management with the declared meaning "the destination
+	// becomes a copy of the source": `x = f(src)` and `f(src, x)` (tak.alloc, tak.copyPosition; the storage itself is the
+	// subject of Impl/Alloc.lean / C09)
+	copies string
+	// reuse: `s[:0]` and `s[len(s):len(s):cap(s)]` (an empty slice that reuses storage) are translated as the empty array
+	// (storage reuse is the subject of Impl/Alloc.lean / C09; values are unaffected)
+	reuse bool
+	// round3: sequential `if` / `switch` statements whose branches fall through are translated with a join point
+	// (the continuation is emitted once) instead of being duplicated into every branch
+	round3 bool
 }
 
 // groups in file order; a function may only call functions of its own or an earlier group
-var groups = []string{"", "Tak", "Over", "Move", "Sym", "AI", "FPA", "Eval", "Pos", "Road", "MoveGen", "SymMove", "Prove"}
+var groups = []string{"", "Tak", "Over", "Move", "Sym", "AI", "FPA", "Eval", "Pos", "Road", "MoveGen", "SymMove", "Prove", "Apply"}
 
 var whitelist = []fnSpec{
 	{dir: "bitboard", file: "bits.go", name: "Precompute", lean: "precompute"},
@@ -159,11 +176,31 @@ var whitelist2 = []fnSpec{
 	{dir: "prove", file: "pn.go", recv: "node", name: "disproof", lean: "nodeDisproof", group: "Prove", views: map[string]string{"n": "delta flags phi"}},
 }
 
+// third round (mut.go): functions that assign through a pointer parameter
+const positionMut = "Black Caps Height Stacks Standing White analysis.BlackGroups analysis.WhiteGroups blackCaps blackStones hash move whiteCaps whiteStones"
+
+var whitelist3 = []fnSpec{
+	// group Apply: tak/slide.go Iterator, tak/game.go analyze, tak/move.go MovePreallocated
+	{dir: "tak", file: "slide.go", recv: "Slides", name: "Iterator", lean: "slidesIterator", group: "Apply"},
+	{dir: "tak", file: "game.go", recv: "Position", name: "analyze", lean: "positionAnalyze", group: "Apply", reuse: true,
+		views: map[string]string{"p": "Black Standing White cfg.c"}, mut: map[string]string{"p": "analysis.BlackGroups analysis.WhiteGroups"}},
+	{dir: "tak", file: "move.go", recv: "Position", name: "MovePreallocated", lean: "movePreallocated", group: "Apply", globals: "basis",
+		fuel: []string{"9", "9"}, copies: "alloc copyPosition",
+		views: map[string]string{"p": "Black Caps Height Size Stacks Standing White blackCaps blackStones cfg.Size cfg.c hash move whiteCaps whiteStones", "next": "isNil"},
+		mut:   map[string]string{"next": positionMut},
+		late:  map[string]string{"next": "cfg.Size cfg.c"}},
+}
+
 func init() {
 	for i := range whitelist2 {
 		whitelist2[i].round2 = true
 	}
+	for i := range whitelist3 {
+		whitelist3[i].round2 = true
+		whitelist3[i].round3 = true
+	}
 	whitelist = append(whitelist, whitelist2...)
+	whitelist = append(whitelist, whitelist3...)
 }
 
 // accessors: methods of abstract (non-translatable) parameters that may be read like a field.
@@ -278,6 +315,7 @@ type fnInfo struct {
 	params   []paramInfo
 	globals  []string // package-level variables it reads (leading parameters g_<name>)
 	variadic bool
+	mutParam int // index of the parameter whose pointee the function assigns (-1: none); the function then has no Go result
 }
 
 type viewInfo struct {
@@ -289,11 +327,16 @@ type paramInfo struct {
 	abstract bool
 	skip     bool       // blank / unnamed Go parameter: no Lean parameter
 	views    []viewInfo // sorted by joined name
+	mutViews []viewInfo // the assignable paths (sorted by joined name): what a call returns
 }
 
 type absParam struct {
 	name  string
 	views map[string]viewInfo
+	// third round: assignable views, views that are inputs (Lean parameters); tracked = reads check initialisation
+	mut     map[string]bool
+	input   map[string]bool
+	tracked bool
 }
 
 type closureInfo struct {
@@ -335,6 +378,13 @@ type tr struct {
 	globals  map[string]ltype
 	names    map[types.Object]string // Lean names of variables that share their Go name with an earlier variable
 	ndup     map[string]int
+	// third round (mut.go)
+	mutInit map[string]bool          // view name of a tracked parameter -> initialised on the current path
+	alias   map[types.Object]*aliasT // pointer-typed local variables: the field they point to on the current path (nil: nil)
+	errRes  bool                     // the last Go result is an `error`: Lean result `Except Unit ..`
+	retMut  *absParam                // the parameter a `*T` result returns
+	voidMut *absParam                // function without results assigning through this parameter
+	resT    string                   // Lean text of the result type (without Option)
 }
 
 // nm: the Lean name of the variable an identifier denotes
@@ -619,6 +669,9 @@ func (t *tr) view(a *absParam, path []string, ty ltype) string {
 	if old.ty.lean() != ty.lean() {
 		t.err2("%s: view %s has type %s, declared path resolves to %s", t.spec.name, name, ty.lean(), old.ty.lean())
 	}
+	if a.tracked && !t.mutInit[name] {
+		t.err2("%s reads %s.%s before it is initialised on this path", t.spec.name, a.name, strings.Join(path, "."))
+	}
 	t.use(name, old.ty, token.NoPos)
 	return name
 }
@@ -632,12 +685,41 @@ func (t *tr) err2(format string, a ...interface{}) {
 // declareViews resolves the declared view paths of an abstract parameter through go/types.
 func (t *tr) declareViews(a *absParam, ty types.Type) {
 	decl, ok := t.spec.views[a.name]
-	if !ok {
+	mdecl, isMut := t.spec.mut[a.name]
+	ldecl := t.spec.late[a.name]
+	if !ok && !isMut {
 		t.err2("abstract parameter %s has no declared views in the whitelist", a.name)
 		return
 	}
+	a.mut, a.input, a.tracked = map[string]bool{}, map[string]bool{}, isMut
+	t.declareViewList(a, ty, decl, "view")
+	t.declareViewList(a, ty, mdecl, "mut")
+	t.declareViewList(a, ty, ldecl, "late")
+}
+
+func (t *tr) declareViewList(a *absParam, ty types.Type, decl string, kind string) {
 	for _, ps := range strings.Fields(decl) {
 		path := strings.Split(ps, ".")
+		name := viewName(a.name, path)
+		if kind == "view" {
+			a.input[name] = true
+			t.mutInit[name] = true
+		}
+		if kind == "mut" {
+			a.mut[name] = true
+		}
+		if _, dup := a.views[name]; dup {
+			continue // listed as input and as assignable
+		}
+		if ps == "isNil" {
+			// pseudo view: `x == nil` of a pointer parameter
+			if _, isPtr := ty.(*types.Pointer); !isPtr || kind != "view" {
+				t.err2("view %s.isNil: only as an input view of a pointer parameter", a.name)
+				return
+			}
+			a.views[name] = viewInfo{path: path, ty: ltype{c: tBool}}
+			continue
+		}
 		cur := ty
 		for _, comp := range path {
 			if p, ok := cur.(*types.Pointer); ok {
@@ -676,7 +758,7 @@ func (t *tr) declareViews(a *absParam, ty types.Type) {
 			t.err2("view %s.%s: type %s is not translatable", a.name, ps, cur)
 			return
 		}
-		a.views[viewName(a.name, path)] = viewInfo{path: path, ty: lt}
+		a.views[name] = viewInfo{path: path, ty: lt}
 	}
 }
 
@@ -758,7 +840,27 @@ func (t *tr) expr(e ast.Expr) string {
 			name = ix.Sel.Name
 		}
 		return t.view(a, []string{"[" + name + "]"}, t.typeOf(e))
+	case *ast.StarExpr:
+		if tgt, ok := t.derefTarget(e); ok {
+			if tgt == nil {
+				t.fail(e, "dereference of a pointer that is nil on this path in a place where the panic cannot be expressed")
+				return "?"
+			}
+			return t.view(tgt.a, tgt.path, tgt.ty)
+		}
+		t.fail(e, "dereference (only of a pointer-typed local whose target is statically known)")
+		return "?"
 	case *ast.UnaryExpr:
+		if e.Op == token.AND && t.spec.round3 {
+			// `&x.f` of a struct-typed field passed to a read-only pointer parameter: the value
+			if _, st := namedStruct(t.p.info.Types[e.X].Type); st != nil && structOK(st, 0) {
+				if root, _ := selPath(e.X); root != nil {
+					return t.expr(e.X)
+				}
+			}
+			t.fail(e, "address-of (only of a struct-typed field, as a read-only argument)")
+			return "?"
+		}
 		x := t.expr(e.X)
 		ty := t.typeOf(e.X)
 		switch e.Op {
@@ -788,6 +890,9 @@ func (t *tr) expr(e ast.Expr) string {
 	case *ast.CompositeLit:
 		return t.compositeLit(e)
 	case *ast.SliceExpr:
+		if t.reuseSlice(e) {
+			return "#[]"
+		}
 		if e.Low == nil || e.High != nil || e.Max != nil || !t.isArr(e.X) {
 			t.fail(e, "slice expression (only s[a:])")
 			return "?"
@@ -1059,6 +1164,22 @@ func (t *tr) shiftAmount(e ast.Expr) string {
 
 // binary translates e; rt is the Go type of the result (given explicitly: `x op= y` builds a synthetic node)
 func (t *tr) binary(e *ast.BinaryExpr, rt ltype) string {
+	if e.Op == token.EQL || e.Op == token.NEQ {
+		// `x == nil` of a pointer parameter: the input view x_isNil (mut.go)
+		x, y := e.X, e.Y
+		if t.isNilExpr(x) {
+			x, y = y, x
+		}
+		if id, ok := x.(*ast.Ident); ok && t.isNilExpr(y) {
+			if a := t.absOf(id); a != nil {
+				v := t.view(a, []string{"isNil"}, ltype{c: tBool})
+				if e.Op == token.NEQ {
+					return "(!" + v + ")"
+				}
+				return v
+			}
+		}
+	}
 	lt := t.typeOf(e.X)
 	l, r := t.expr(e.X), "?"
 	if e.Op != token.SHL && e.Op != token.SHR {
@@ -1190,6 +1311,19 @@ func (t *tr) lhsName(e ast.Expr) string {
 				return t.nm(id) + "_" + e.Sel.Name
 			}
 		}
+		if a, path, ok := t.mutField(e); ok {
+			n := viewName(a.name, path)
+			t.use(n, a.views[n].ty, token.NoPos)
+			return n
+		}
+	case *ast.StarExpr:
+		if tgt, ok := t.derefTarget(e); ok && tgt != nil {
+			n := viewName(tgt.a.name, tgt.path)
+			t.use(n, tgt.ty, token.NoPos)
+			return n
+		}
+	case *ast.ParenExpr:
+		return t.lhsName(e.X)
 	}
 	t.fail(e, "assignment target")
 	return "?"
@@ -1238,6 +1372,13 @@ func (t *tr) stmts(ss []ast.Stmt, ret func() string) string {
 	}
 	s, tail := ss[0], ss[1:]
 	cont := func() string { return t.stmts(tail, ret) }
+	// a dereference of a pointer that is nil on this path: Go panics (mut.go)
+	if len(t.alias) > 0 && t.derefNil(t.stmtExprs(s)) {
+		if t.err != nil || !t.wantOpt(s) {
+			return "?"
+		}
+		return "none"
+	}
 	// what the statement evaluates may panic (index out of range, a panicking callee): guard first (slices.go)
 	pre := t.guard(t.stmtExprs(s)...)
 	if t.err != nil {
@@ -1247,8 +1388,26 @@ func (t *tr) stmts(ss []ast.Stmt, ret func() string) string {
 }
 
 func (t *tr) stmt1(s ast.Stmt, tail []ast.Stmt, ret func() string, cont func() string) string {
+	switch st := s.(type) {
+	case *ast.IfStmt:
+		if st.Init == nil && t.joinable(s, tail) {
+			return t.join(s, cont)
+		}
+	case *ast.SwitchStmt:
+		if st.Init == nil && t.joinable(s, tail) {
+			return t.join(s, cont)
+		}
+	}
+	return t.stmt1cps(s, tail, ret, cont)
+}
+
+// stmt1cps: the statement followed by its continuation (translated into every branch that falls through)
+func (t *tr) stmt1cps(s ast.Stmt, tail []ast.Stmt, ret func() string, cont func() string) string {
 	switch s := s.(type) {
 	case *ast.ReturnStmt:
+		if t.errRes || t.retMut != nil || t.voidMut != nil {
+			return t.emitReturn(t.mutReturn(s))
+		}
 		switch len(s.Results) {
 		case 0:
 			if len(t.named) == 0 {
@@ -1281,6 +1440,15 @@ func (t *tr) stmt1(s ast.Stmt, tail []ast.Stmt, ret func() string, cont func() s
 			}
 			return "none"
 		}
+		if dst, src, ok := t.copyStmt(s); ok {
+			if dst == nil {
+				return "?"
+			}
+			return t.emitCopy(s, dst, src) + cont()
+		}
+		if out, ok := t.mutCall(s, cont); ok {
+			return out
+		}
 		t.fail(s, "expression statement")
 		return "?"
 	case *ast.DeclStmt:
@@ -1297,6 +1465,10 @@ func (t *tr) stmt1(s ast.Stmt, tail []ast.Stmt, ret func() string, cont func() s
 			vs := sp.(*ast.ValueSpec)
 			for i, n := range vs.Names {
 				obj := t.p.info.Defs[n]
+				if pt, isPtr := obj.Type().(*types.Pointer); isPtr && len(vs.Values) == 0 && basicType(pt.Elem()).c != tBad && t.spec.round3 {
+					t.alias[obj] = nil // `var q *byte`: nil until it is given a target; resolved statically (mut.go)
+					continue
+				}
 				lt := t.ltypeOf(obj.Type())
 				if lt.c == tStruct {
 					st := t.structs[lt.sname]
@@ -1351,7 +1523,27 @@ func (t *tr) stmt1(s ast.Stmt, tail []ast.Stmt, ret func() string, cont func() s
 				t.fail(s, "assignment shape")
 				return "?"
 			}
+			t.markAssigned(s.Lhs...)
 			return fmt.Sprintf("let %s := %s\n", tuple(names), val) + cont()
+		}
+		if id, isId := s.Lhs[0].(*ast.Ident); isId {
+			if _, isAlias := t.alias[t.p.info.Uses[id]]; isAlias && s.Tok == token.ASSIGN {
+				// `q = &x.f`: from here on `*q` is the field x.f
+				if ue, isAddr := s.Rhs[0].(*ast.UnaryExpr); isAddr && ue.Op == token.AND {
+					if a, path, ok := t.mutField(ue.X); ok {
+						t.alias[t.p.info.Uses[id]] = &aliasT{a: a, path: path, ty: a.views[viewName(a.name, path)].ty}
+						return cont()
+					}
+				}
+				t.fail(s, "a pointer may only be given the address of an assignable field of a parameter (`q = &x.f`)")
+				return "?"
+			}
+		}
+		if dst, src, ok := t.copyStmt(s); ok {
+			if dst == nil {
+				return "?"
+			}
+			return t.emitCopy(s, dst, src) + cont()
 		}
 		if fl, ok := s.Rhs[0].(*ast.FuncLit); ok {
 			id, isId := s.Lhs[0].(*ast.Ident)
@@ -1363,6 +1555,7 @@ func (t *tr) stmt1(s ast.Stmt, tail []ast.Stmt, ret func() string, cont func() s
 			return cont()
 		}
 		if line, ok := t.assignElem(s.Lhs[0], s.Tok, s.Rhs[0], s.TokPos); ok {
+			t.markAssigned(s.Lhs[0])
 			return line + cont()
 		}
 		name := t.lhsName(s.Lhs[0])
@@ -1389,6 +1582,7 @@ func (t *tr) stmt1(s ast.Stmt, tail []ast.Stmt, ret func() string, cont func() s
 			t.fail(s, "assigned type")
 			return "?"
 		}
+		t.markAssigned(s.Lhs[0])
 		return fmt.Sprintf("let %s : %s := %s\n", name, lt.lean(), val) + cont()
 	case *ast.IncDecStmt:
 		if _, isIdx := s.X.(*ast.IndexExpr); isIdx {
@@ -1404,6 +1598,9 @@ func (t *tr) stmt1(s ast.Stmt, tail []ast.Stmt, ret func() string, cont func() s
 		}
 		name := t.lhsName(s.X)
 		lt := t.typeOf(s.X)
+		if _, isId := s.X.(*ast.Ident); !isId {
+			t.expr(s.X) // a field / dereference: the read checks that it is initialised
+		}
 		op := "+"
 		if s.Tok == token.DEC {
 			op = "-"
@@ -1425,7 +1622,9 @@ func (t *tr) stmt1(s ast.Stmt, tail []ast.Stmt, ret func() string, cont func() s
 			return t.stmts(append([]ast.Stmt{s.Init, &inner}, tail...), ret)
 		}
 		c := t.expr(s.Cond)
+		entry := t.snapshot()
 		thenS := t.stmts(s.Body.List, cont)
+		t.restore(entry)
 		var elseS string
 		switch el := s.Else.(type) {
 		case nil:
@@ -1460,21 +1659,33 @@ func (t *tr) stmt1(s ast.Stmt, tail []ast.Stmt, ret func() string, cont func() s
 			t.loops = save
 			return r
 		}
+		entry := t.snapshot()
+		// the body of clause i; a trailing `fallthrough` appends the next clause's body (mut.go)
+		var bodyOf func(i int) []ast.Stmt
+		bodyOf = func(i int) []ast.Stmt {
+			body := clauses[i].(*ast.CaseClause).Body
+			for k, b := range body {
+				if br, ok := b.(*ast.BranchStmt); ok {
+					if t.spec.round3 && br.Tok == token.FALLTHROUGH && k == len(body)-1 && i+1 < len(clauses) {
+						return append(append([]ast.Stmt{}, body[:k]...), bodyOf(i+1)...)
+					}
+					t.fail(br, "branch statement in switch")
+				}
+			}
+			return body
+		}
 		build = func(i int) string {
+			t.restore(entry)
 			if i == len(clauses) {
 				return cont()
 			}
 			cc := clauses[i].(*ast.CaseClause)
-			for _, b := range cc.Body {
-				if br, ok := b.(*ast.BranchStmt); ok {
-					t.fail(br, "branch statement in switch")
-				}
-			}
+			ccBody := bodyOf(i)
 			if cc.List == nil {
 				if i != len(clauses)-1 {
 					t.fail(cc, "default not last")
 				}
-				return t.stmts(cc.Body, cont)
+				return t.stmts(ccBody, cont)
 			}
 			var cs []string
 			g := t.guard(cc.List...)
@@ -1485,7 +1696,7 @@ func (t *tr) stmt1(s ast.Stmt, tail []ast.Stmt, ret func() string, cont func() s
 					cs = append(cs, t.expr(ce))
 				}
 			}
-			return g + fmt.Sprintf("if %s then\n%s\nelse\n%s", strings.Join(cs, " || "), indent(t.stmts(cc.Body, cont)), indent(build(i+1)))
+			return g + fmt.Sprintf("if %s then\n%s\nelse\n%s", strings.Join(cs, " || "), indent(t.stmts(ccBody, cont)), indent(build(i+1)))
 		}
 		return build(0)
 	case *ast.ForStmt:
@@ -1816,7 +2027,7 @@ func (t *tr) localClosure(id *ast.Ident, fl *ast.FuncLit) {
 	}
 	ct := &tr{g: t.g, p: t.p, spec: t.spec, group: t.group, structs: t.structs, locals: map[string]*types.Struct{},
 		abs: map[types.Object]*absParam{}, closures: t.closures, fnBody: nil,
-		hoisted: map[*ast.CallExpr]string{}, loopDone: map[ast.Stmt]string{}, globals: map[string]ltype{}, names: t.names, ndup: t.ndup}
+		hoisted: map[*ast.CallExpr]string{}, loopDone: map[ast.Stmt]string{}, globals: map[string]ltype{}, names: t.names, ndup: t.ndup, mutInit: map[string]bool{}, alias: map[types.Object]*aliasT{}}
 	ct.spec.lean = t.spec.lean + "_" + id.Name
 	if panics, forever := ct.scanShape(fl.Body); panics || forever {
 		t.fail(fl, "closure with panic / unbounded loop")
@@ -2064,12 +2275,34 @@ func (t *tr) signature(recv *ast.FieldList, ft *ast.FuncType) (ps []sigParam, rt
 			t.named = []string{"g_" + t.spec.writes}
 			return ps, lt, ""
 		}
+		// a function without results that assigns through a parameter returns the assigned fields (mut.go)
+		if a := t.theMutParam(ps); a != nil {
+			t.voidMut = a
+			return ps, t.mutType(a), ""
+		}
 		t.fail(ft, "no result")
 		return
 	}
 	var rts []ltype
-	for _, fl := range ft.Results.List {
-		lt := t.ltypeOf(t.p.info.Types[fl.Type].Type)
+	resList := ft.Results.List
+	if n := len(resList); n > 0 && len(resList[n-1].Names) <= 1 && isErrorType(t.p.info.Types[resList[n-1].Type].Type) {
+		if len(resList[n-1].Names) == 1 || n == 1 {
+			t.fail(ft, "error result in this form (named, or the only result)")
+			return
+		}
+		t.errRes = true
+		resList = resList[:n-1]
+	}
+	for _, fl := range resList {
+		rty := t.p.info.Types[fl.Type].Type
+		lt := t.ltypeOf(rty)
+		if lt.c == tBad && len(fl.Names) == 0 {
+			// `*T` of an abstract type: the function returns one of its parameters after assigning through it (mut.go)
+			if a := t.mutParamOfType(ps, rty); a != nil && t.retMut == nil {
+				t.retMut = a
+				lt = t.mutType(a)
+			}
+		}
 		if lt.c == tBad {
 			t.fail(fl, "result type")
 			return
@@ -2118,8 +2351,13 @@ func (t *tr) paramList(ps []sigParam) (string, []paramInfo) {
 		sort.Strings(names)
 		pi := paramInfo{abstract: true}
 		for _, k := range names {
-			out = append(out, fmt.Sprintf("(%s : %s)", k, a.views[k].ty.lean()))
-			pi.views = append(pi.views, a.views[k])
+			if a.input[k] {
+				out = append(out, fmt.Sprintf("(%s : %s)", k, a.views[k].ty.lean()))
+				pi.views = append(pi.views, a.views[k])
+			}
+			if a.mut[k] {
+				pi.mutViews = append(pi.mutViews, a.views[k])
+			}
 		}
 		infos = append(infos, pi)
 	}
@@ -2147,7 +2385,7 @@ func newTr(g *generator, p *pkgInfo, spec fnSpec, group int) *tr {
 	return &tr{g: g, p: p, spec: spec, group: group, structs: map[string]*types.Struct{}, locals: map[string]*types.Struct{},
 		abs: map[types.Object]*absParam{}, closures: map[types.Object]closureInfo{},
 		hoisted: map[*ast.CallExpr]string{}, loopDone: map[ast.Stmt]string{}, globals: map[string]ltype{},
-		names: map[types.Object]string{}, ndup: map[string]int{}}
+		names: map[types.Object]string{}, ndup: map[string]int{}, mutInit: map[string]bool{}, alias: map[types.Object]*aliasT{}}
 }
 
 func (g *generator) function1(p *pkgInfo, spec fnSpec, group int, fd *ast.FuncDecl, forceOpt bool) (string, *tr) {
@@ -2173,6 +2411,9 @@ func (g *generator) function1(p *pkgInfo, spec fnSpec, group int, fd *ast.FuncDe
 			if t.spec.writes != "" && fd.Type.Results == nil {
 				return t.retVal(tuple(t.named))
 			}
+			if t.voidMut != nil {
+				return t.retVal(t.mutValue(fd, t.voidMut))
+			}
 			t.fail(fd, "control reaches the end of the function without return")
 			return "?"
 		})
@@ -2181,6 +2422,14 @@ func (g *generator) function1(p *pkgInfo, spec fnSpec, group int, fd *ast.FuncDe
 		return "", t
 	}
 	params, infos := t.paramList(ps)
+	mutIdx := -1
+	if t.voidMut != nil {
+		for i, sp := range ps {
+			if sp.abstract && t.abs[sp.obj] == t.voidMut {
+				mutIdx = i
+			}
+		}
+	}
 	var gparams []string
 	for _, n := range t.globalNames() {
 		gparams = append(gparams, fmt.Sprintf("(g_%s : %s)", n, t.globals[n].lean()))
@@ -2192,15 +2441,24 @@ func (g *generator) function1(p *pkgInfo, spec fnSpec, group int, fd *ast.FuncDe
 	if sig, ok := p.info.Defs[fd.Name].Type().(*types.Signature); ok {
 		variadic = sig.Variadic()
 	}
-	g.done[specKey(spec)] = &fnInfo{spec: spec, group: group, opt: t.opt, params: infos, globals: t.globalNames(), variadic: variadic}
+	g.done[specKey(spec)] = &fnInfo{spec: spec, group: group, opt: t.opt, params: infos, globals: t.globalNames(), variadic: variadic, mutParam: mutIdx}
 	pos := p.fset.Position(fd.Pos())
 	def := fmt.Sprintf("/-- %s/%s:%d `%s` -/\n", spec.dir, spec.file, pos.Line, spec.name)
+	resT := rt.lean()
+	if t.errRes {
+		// `(T, error)`: `.error ()` = a non-nil error was returned (its text is not modelled), `.ok v` = `v, nil`
+		resT = "Except Unit (" + resT + ")"
+	}
 	for _, h := range t.helpers {
-		h = strings.ReplaceAll(h, "Option RESULT", "Option ("+rt.lean()+")")
-		h = strings.ReplaceAll(h, "(RESULT)", "("+rt.lean()+")")
+		h = strings.ReplaceAll(h, "Option RESULT", "Option ("+resT+")")
+		h = strings.ReplaceAll(h, "(RESULT)", "("+resT+")")
 		def += h + "\n"
 	}
-	def += fmt.Sprintf("def %s %s : %s :=\n%s\n", spec.lean, params, resultType(rt, t.opt), indent(body))
+	body = strings.ReplaceAll(body, "(RESULT)", "("+resT+")")
+	if t.opt {
+		resT = "Option (" + resT + ")"
+	}
+	def += fmt.Sprintf("def %s %s : %s :=\n%s\n", spec.lean, params, resT, indent(body))
 	return def, t
 }
 
@@ -2252,7 +2510,7 @@ func (g *generator) closureTable(p *pkgInfo, spec fnSpec, group int, fd *ast.Fun
 		}
 		ct := &tr{g: g, p: p, spec: spec, group: group, structs: t.structs, locals: map[string]*types.Struct{},
 			abs: map[types.Object]*absParam{}, closures: t.closures,
-			hoisted: map[*ast.CallExpr]string{}, loopDone: map[ast.Stmt]string{}, globals: map[string]ltype{}, names: t.names, ndup: t.ndup}
+			hoisted: map[*ast.CallExpr]string{}, loopDone: map[ast.Stmt]string{}, globals: map[string]ltype{}, names: t.names, ndup: t.ndup, mutInit: map[string]bool{}, alias: map[types.Object]*aliasT{}}
 		ct.spec.lean = spec.lean + "_" + id.Name
 		panics, forever := ct.scanShape(fl.Body)
 		if panics || forever {
